@@ -190,6 +190,16 @@ func genHistory(r *rand.Rand, tier string, o histOpts) *World {
 		w.Extra["overrides"] = "1"
 		w.Extra["malformed"] = "1"
 		cfg.NodeChurn = true
+		if chance(r, 0.5) {
+			// a setting too, also on nodes that carry an override annotation for the same container
+			sd := &SettingDef{NS: "ns1", Name: "set0", Ref: "foo", Container: "main", Cpu: pick(r, "500m", "600m"), AgeSec: pick(r, 0, 30)}
+			if chance(r, 0.5) {
+				sd.Selector = map[string]string{"zone": pick(r, "a", "b")}
+			} else {
+				sd.Selector = map[string]string{"big": "1"}
+			}
+			w.Settings = append(w.Settings, sd)
+		}
 	}
 	cfg.QuiesceRounds = 4
 	if o.c02 {
@@ -587,6 +597,8 @@ func genC18(r *rand.Rand, tier string, idx int) *World {
 		}
 		if chance(r, 0.2) {
 			sd.AgeSec = -1 // created later by the user
+		} else if chance(r, 0.12) {
+			sd.Terminating = true
 		}
 		w.Settings = append(w.Settings, sd)
 	}
@@ -1493,6 +1505,19 @@ func init() {
 			w.Extra["namedEdits"] = "1"
 		}
 		w.Cfg.LabelEdits = chance(r, 0.3)
+		if chance(r, 0.25) {
+			// every template also exists in a second spelling of its memory request: another template
+			// for the controller (new hash, new replica set, new PodTemplate content), an equal one semantically
+			for _, e := range w.EDS {
+				for _, l := range sortedKeys(e.Templates) {
+					e.Templates[l].Mem = "128Mi"
+					c := *e.Templates[l]
+					c.Mem = "134217728"
+					e.Templates[l+"~"] = &c
+				}
+			}
+			w.Extra["respelled"] = "1"
+		}
 		return w
 	}
 	hp.Body = func(s *Sim) {
